@@ -188,6 +188,8 @@ type Engine struct {
 	sitePos  map[string]string
 	softs    []string
 	heapIDs  map[string]int
+	visibilityFrames map[string]bool
+	uncheckedAssumes map[string]bool
 	noAssume bool // obligations at the end of a path must not mask each other
 	noTypeInv bool
 	usedTypeInvs map[string]bool
@@ -196,7 +198,7 @@ type Engine struct {
 func newEngine(P *Program, fn *ssa.Function, con *Contract) *Engine {
 	return &Engine{P: P, fn: fn, con: con, declSet: map[string]bool{}, obls: map[string]*Obl{}, maxPaths: 4000,
 		siteOrd: map[string]int{}, usedExterns: map[string]bool{}, usedContracts: map[string]bool{}, havocCalls: map[string]int{},
-		lenFacts: map[string]bool{}, debug: os.Getenv("GOVC_DEBUG") != "", keySort: map[string]string{}, paramVals: map[string]Val{}, usedTypeInvs: map[string]bool{}}
+		lenFacts: map[string]bool{}, debug: os.Getenv("GOVC_DEBUG") != "", keySort: map[string]string{}, paramVals: map[string]Val{}, usedTypeInvs: map[string]bool{}, visibilityFrames: map[string]bool{}, uncheckedAssumes: map[string]bool{}}
 }
 
 func (e *Engine) decl(name, srt string) {
@@ -268,7 +270,7 @@ func (e *Engine) typeInv(st *State, v Val) {
 		st.assume(implies(eq(v.X[0], "0"), eq(v.T, "0")))
 	case KSlice:
 		z := bvLit(0, 64)
-		st.assume(fmt.Sprintf("(and (>= %s 0) (< %s %s) (bvsle %s %s) (bvsle %s %s) (bvsle %s %s) (bvsle %s (bvsub #x7fffffffffffffff %s)))",
+		st.assume(fmt.Sprintf("(and (>= %s 0) (< %s %s) (bvsle %s %s) (bvsle %s %s) (bvsle %s %s) (bvsle %s #x0001000000000000) (bvsle %s #x0001000000000000))",
 			v.T, v.T, st.A.term(), z, v.X[0], z, v.X[1], v.X[1], v.X[2], v.X[0], v.X[2]))
 		st.assume(implies(eq(v.T, "0"), eq(v.X[2], z)))
 	case KMap:
@@ -330,21 +332,18 @@ func (e *Engine) heapGet(st *State, key, srt string) string {
 	}
 	e.keySort[key] = srt
 	ep := st.epoch
+	if strings.HasPrefix(key, "G:") && e.P.immutableGlobal(key) {
+		n := sym(key + "@0")
+		e.decl(n, srt)
+		st.heap[key] = n
+		return n
+	}
 	// a partial havoc that happened before this array was first touched applies to it as well
 	for _, ph := range st.pending {
 		if ph.epoch <= ep {
 			continue
 		}
-		hit := ph.eff.Ext && keyIsExternal(key)
-		if !hit {
-			for k := range ph.eff.Keys {
-				if strings.HasPrefix(key, k) {
-					hit = true
-					break
-				}
-			}
-		}
-		if hit {
+		if ph.eff.hits(key) && !(strings.HasPrefix(key, "G:") && e.P.immutableGlobal(key)) {
 			ep = ph.epoch
 		}
 	}
@@ -582,6 +581,7 @@ func (e *Engine) alloc(st *State, t types.Type, owned bool) string {
 // havocHeap forgets every heap array (an unknown callee ran). Objects allocated in this
 // function that have not escaped keep their contents.
 func (e *Engine) havocHeap(st *State, why string) {
+	e.note("full heap havoc: " + why)
 	old := st.heap
 	st.heap = make(map[string]string, len(old))
 	e.nfresh++
@@ -921,18 +921,18 @@ func (P *Program) loopsOf(fn *ssa.Function) map[*ssa.BasicBlock]*LoopInfo {
 						li.eff.Keys["MD:"+k+":"+v] = true
 						li.eff.Keys["MV:"+k+":"+v+":"] = true
 					} else {
-						li.eff.All = true
+						li.eff.setAll()
 					}
 				case *ssa.Go, *ssa.Send, *ssa.Select:
-					li.eff.All = true
+					li.eff.setAll()
 				case *ssa.Defer:
-					li.eff.All = true
+					li.eff.setAll()
 				case ssa.CallInstruction:
 					P.callEffect(li.eff, x.Common(), fn)
 				}
 			}
 		}
-		li.heapAll = li.eff.All
+		li.heapAll = li.eff.full()
 		sort.Slice(li.cells, func(a, b int) bool { return li.cells[a].Pos() < li.cells[b].Pos() })
 		// range-index pattern
 		if len(h.Instrs) >= 4 {
@@ -1000,9 +1000,12 @@ func (e *Engine) gotoBlock(st *State, b *ssa.BasicBlock) []*State {
 		return []*State{st}
 	}
 	isRoot := fr.fn == e.fn
-	var invs, decs []*Clause
+	var invs, decs, assumes []*Clause
 	if isRoot && e.con != nil {
 		for _, c := range e.con.Clauses {
+			if c.Loop == li.ordinal && c.Kind == "loop-assume" {
+				assumes = append(assumes, c)
+			}
 			if c.Loop == li.ordinal && c.Kind == "loop-invariant" {
 				invs = append(invs, c)
 			}
@@ -1056,6 +1059,12 @@ func (e *Engine) gotoBlock(st *State, b *ssa.BasicBlock) []*State {
 	for _, c := range invs {
 		v := e.evalSpecBool(st, e.entry, c.Expr, e.rootEnv(st, nil))
 		st.assume(v)
+	}
+	for _, c := range assumes {
+		// an unchecked assumption (ownership / separation fact); listed in the evidence
+		v := e.evalSpecBool(st, e.entry, c.Expr, e.rootEnv(st, nil))
+		st.assume(v)
+		e.uncheckedAssumes[shortFn(e.fn)+" loop "+fmt.Sprint(li.ordinal)+": "+c.Text] = true
 	}
 	for _, c := range decs {
 		if fr.variant == nil {
